@@ -85,6 +85,10 @@ class SchedStream(Stream):
             return "sched:C20:uncommitted-custom-output-lost"
         if "died during its first main-loop iteration" in failure:
             return "sched:C20:crash-before-first-commit"
+        if "left" in failure and "in the set of held instances" in failure:
+            return "sched:C30:removed-active-task-left-held"
+        if "runahead limit kept at the stop point" in failure:
+            return "sched:C04:limit-not-recomputed-at-stop-point"
         return f"{self.name}:{failure.split(']')[0][1:]}:{failure.split(']')[-1].strip()[:60]}"
 
     def shrink(self, c):
